@@ -1,7 +1,7 @@
 \* trace evaluation; OpenDevs = deviations of the open entries of known_findings.d/C04.json
 SPECIFICATION TSpec
 CONSTANTS
-  Locals = {"l1", "l2"}
+  Locals = {"l1", "l2", "l3"}
   Doms = {"d1", "d2"}
   EnvLocals = {}
   RuleVars = {"lower"}
@@ -21,7 +21,8 @@ CONSTANTS
   DefectOdds = 0
   Salts = {0}
   DefaultLast = TRUE
+  BareMaps = TRUE
   PrintExpected = FALSE
-  OpenDevs = {"F18", "F19"}
+  OpenDevs = {}
 CHECK_DEADLOCK FALSE
 POSTCONDITION Post
